@@ -385,6 +385,9 @@ func c17Fixtures(seed uint64) *c17fx {
 		{0, 0, nz, 5, nz, 1, 5, 0, 2, 9, 3, 3},                                              // end point touch at (5,0)
 		{nz, nz, 1, 10, nz, 2, 5, 0, nz, 5, 7, 4},                                           // T touch at (5,0)
 		{1, 1, 1, 1, 1, nz, 1, 1, 2, 4, 5, 6},                                               // zero-length first segment
+		{0, 0, 1, 5, nz, 2, 5, 0, 3, 9, 0, 4},                                               // collinear, touching in one point whose two spellings differ in the sign of zero and in Z
+		{1, 1, 7, 3, 3, 20, 3, 3, 99, 6, 6, 5},                                              // the same on a diagonal, Z differs
+		{6, 6, 5, 3, 3, 99, 1, 1, 7, 3, 3, 20},                                              // the same, both reversed
 		{-3, nz, 5, 3, nz, 5, nz, -4, 5, nz, 4, 5},                                          // proper crossing at the origin
 		{-48, -561, 1, 294, 609, 2, -48.00000000000001, -560.9999999999999, 3, 650, 742, 4}, // cross within an ulp of an end point
 		{-2762.9143171760657, -2277.3445764932712, 1, 596.6999235241909, 3167.547468779559, 2, -2762.9143171760657, -2277.344576493271, 3, 2797.8264950174625, 2356.6061003346695, 4}, // the same
